@@ -90,8 +90,10 @@ def c01_cases():
                     if pre == 4 and sl in (2, 3):
                         continue   # pre-state #4 stores a self-loop: not reachable when self-loops are disallowed
                     tier = "quick" if ((pre, op) in quick and c01_quick_pick(kn, pre, op, dd, mm)) else ("thorough" if c01_cost_class(kn, pre, op, dd, mm) == "cheap" else "full")
-                    if tier == "thorough" and kn in ("dm", "um") and dd != (pre + op) % 3:
+                    if tier == "thorough" and kn in ("dm", "um") and (dd != (pre + op) % 3 or mm == 1):
                         tier = "full"   # multi-edge kinds ignore the dedupe strategy: one strategy per cell in the thorough tier
+                    if tier == "thorough" and pre in (0, 1) and op in (3, 8, 7):
+                        tier = "full"   # node-creating variants of cells already covered by ops 4-6
                     if sl in (2, 3) and tier == "full" and c01_cost_class(kn, pre, op, 2, mm) == "cheap":
                         tier = "thorough"   # a rejected / dropped self-loop touches nothing: cheap under every dedupe strategy
                     name = "c01_step_%s_p%d_o%02d_d%d_m%d_l%d" % (kn, pre, op, dd, mm, sl)
@@ -389,6 +391,10 @@ def c20_cases():
                         # measured > 25 min: single_source on graphs with an edge (shape 5/6), undirected cluster functions on the triangle
                         heavy = (gi == 5 and s in (5, 6)) or (gi in (0, 1) and s == 6 and not d)
                         tier = "full" if heavy else ("quick" if pick else "thorough")
+                        # thorough tier: the four single-edge kinds with self-loops allowed or not on one direction each, plus
+                        # one multi-edge kind; the remaining kinds repeat the same code paths and are kept in the full tier
+                        if tier == "thorough" and kn not in ("dsl", "usl", "dsn", "uml"):
+                            tier = "full"
                         out.append(("c20_%s_s%d_%s" % (kn, s, gname), "c20_harness!(c20_%s_s%d_%s, %s, %s, %s, %d, %d);" % (kn, s, gname, B[d], B[m], B[l], s, gi), tier, ["reached end"],
                                     "kind=%s degenerate shape #%d: %s functions return a value or an Error (no panic / overflow)" % (kn, s, gname)))
                 # constant-input weighted searches: fast path, target, cutoff on a tie graph with a zero-weight self-loop
